@@ -106,7 +106,8 @@ pub fn run_ops(bytes: &[u8], sched: &[usize], visible0: usize, opts: Opts, tbits
     // header phase: read_header_info may be retried on the same Decoder; read_info once the whole header part is visible
     loop {
         let d = dec.as_mut().unwrap();
-        match guarded(|| d.read_header_info().map(|_| ()).map_err(|e| res_err(&e))) {
+        // ... and the public size accessors of the header just read (they are computed from the declared dimensions)
+        match guarded(|| d.read_header_info().map(|i| { let _ = (i.raw_bytes(), i.raw_row_length(), i.bytes_per_pixel(), i.bits_per_pixel(), i.size(), i.is_animated()); }).map_err(|e| res_err(&e))) {
             Err(m) => {
                 tr.results.push(format!("H PANIC {}", m));
                 tr.panicked = Some(m);
@@ -182,10 +183,14 @@ pub fn run_ops(bytes: &[u8], sched: &[usize], visible0: usize, opts: Opts, tbits
                 let (c, d) = rd.output_color_type();
                 format!("{}x{} {}:{} line={} buf={} anim={}", rd.info().width, rd.info().height, c as u8, d as u8, rd.output_line_size(rd.info().width), rd.output_buffer_size(), rd.info().is_animated())
             }),
-            Op::Finish => guarded(|| match rd.finish() {
-                Ok(()) => "ok".to_string(),
-                Err(e) => res_err(&e),
-            }),
+            Op::Finish => {
+                let r = guarded(|| match rd.finish() {
+                    Ok(()) => "ok".to_string(),
+                    Err(e) => res_err(&e),
+                });
+                cur.started = false; // finish() abandons the rest of the current frame
+                r
+            }
             Op::FrameInfo => {
                 let r = guarded(|| match rd.next_frame_info() {
                     Ok(f) => format!("ok {}", fctl_str(f)),
@@ -219,7 +224,12 @@ pub fn run_ops(bytes: &[u8], sched: &[usize], visible0: usize, opts: Opts, tbits
                         let r = guarded(|| rd.next_frame(&mut buf).map_err(|e| res_err(&e)));
                         match r {
                             Err(m) => Err(m),
-                            Ok(Err(e)) => Ok(format!("{} @{}", e, rd.info().frame_control.as_ref().map(fctl_str).unwrap_or_else(|| "none".into()))),
+                            Ok(Err(e)) => {
+                                if mid_frame && expected_rows != usize::MAX && e == "err:Param:PolledAfterEndOfImage" {
+                                    tr.left_frame.push(format!("after {} of {} rows of frame [{}] next_frame reported the end of the image instead of delivering the remaining rows", cur.rows_done, expected_rows, cur_fctl));
+                                }
+                                Ok(format!("{} @{}", e, rd.info().frame_control.as_ref().map(fctl_str).unwrap_or_else(|| "none".into())))
+                            }
                             Ok(Ok(oi)) => {
                                 let n = oi.buffer_size().min(buf.len());
                                 let fctl = rd.info().frame_control.as_ref().map(fctl_str).unwrap_or_else(|| "none".into());
